@@ -1,0 +1,7 @@
+//go:build verif
+
+package decode
+
+import "fmt"
+
+func fmtSprint(v ...interface{}) string { return fmt.Sprint(v...) }
